@@ -767,3 +767,201 @@ Definition run_hist (c : cfg) (i : input) (perm req : list Z) (byframe assert_mi
            VL (hist_steps true false st req byframe assert_missing steps);
            VB (valid c i); VB (hist_spec_holds c i perm byframe); VB (combinable c i) ]
   end.
+
+(* ================================================================== *)
+(* extension (session 4): every request list, the label-map refusals,   *)
+(* acceptance, worker schedules, iter_segments                          *)
+(* ================================================================== *)
+(* ---- what ANY request list must read back as ------------------------ *)
+Definition in_src (c : cfg) (j : Z) : bool := (0 <=? j) && (j <? nsrc c).
+
+(* one requested source: the input plane, or zeros for a source that is not
+   there (only reachable with assert_missing_frames_are_empty) *)
+Definition expected_plane (c : cfg) (i : input) (j : Z) : list (list Z) :=
+  map (fun p => map (fun k => if in_src c j then expected_pixel c i j p k else 0)
+                    (zrange (zlen (segs c))))
+      (zrange (npix c)).
+
+Definition expected_req (c : cfg) (i : input) (byframe : bool) (req : list Z) : list (list (list Z)) :=
+  map (fun r => expected_plane c i (src_index byframe r)) req.
+
+(* ---- combine_segments=True: result OR refusal, from the input alone -- *)
+(* pixel p of source j is already claimed by one of the first m described segments *)
+Definition occupied_before (c : cfg) (i : input) (j p m : Z) : bool :=
+  existsb (fun k => negb (expected_pixel c i j p k =? 0)) (zrange m).
+
+(* the defect, if any, met when the frame of the m-th described segment is
+   visited: a FRACTIONAL value other than 0 / MaximumFractionalValue
+   (ValueError), else a pixel already claimed (RuntimeError) *)
+Definition seg_defect (c : cfg) (i : input) (j m : Z) : option string :=
+  let px := zrange (npix c) in
+  if match ty c with FRACTIONAL => true | _ => false end &&
+     existsb (fun p => let v := expected_pixel c i j p m in negb ((v =? 0) || (v =? maxfrac c))) px
+  then Some "ValueError"%string
+  else if existsb (fun p => negb (expected_pixel c i j p m =? 0) && occupied_before c i j p m) px
+  then Some "RuntimeError"%string
+  else None.
+
+Fixpoint first_some {A B} (f : A -> option B) (l : list A) : option B :=
+  match l with
+  | [] => None
+  | x :: t => match f x with Some y => Some y | None => first_some f t end
+  end.
+
+Definition plane_defect (c : cfg) (i : input) (j : Z) : option string :=
+  match ty c with
+  | LABELMAP => None
+  | _ => if in_src c j then first_some (seg_defect c i j) (zrange (zlen (segs c))) else None
+  end.
+
+Definition expected_label_plane (c : cfg) (i : input) (j : Z) : list Z :=
+  map (fun p => if in_src c j then expected_label c i j p else 0) (zrange (npix c)).
+
+Definition spec_combined (c : cfg) (i : input) (byframe : bool) (req : list Z) : res (list (list Z)) :=
+  map_res (fun r => let j := src_index byframe r in
+                    match plane_defect c i j with
+                    | Some e => Err e
+                    | None => Ok (expected_label_plane c i j)
+                    end) req.
+
+(* ---- acceptance: arrays as numpy hands them over --------------------- *)
+(* facts that hold of every (unsigned / float) numpy array of the stated shape;
+   no condition on the CONTENT of the mask beyond the sign of unsigned values *)
+Definition planes_shaped (c : cfg) (i : input) : bool :=
+  match i with
+  | Label ps => forallb (fun pl => zlen pl =? npix c) ps
+  | Stack ps => forallb (fun pl => zlen pl =? npix c) ps
+  end.
+
+Definition well_formed (c : cfg) (i : input) : bool :=
+  (1 <=? npix c) && (1 <=? nsrc c) && (0 <=? maxfrac c) && planes_shaped c i &&
+  match dt c with
+  | DBad => true
+  | DInt => forallb (fun v => 0 <=? v) (all_pixels i)
+  | DFloat => (0 <? den c) && (if is_stack i then true else list_eqb (segs c) [1])
+  end.
+
+(* ---- workers: the pool completes the encode tasks in ANY order -------- *)
+(* encode_frame tasks are submitted in frame order (task id = position in
+   frame_futures); the pool completes them in the order [pi]; a completed task
+   stores its result in its own future; the constructor then gathers
+   fut.result() in submission order.  A future that was never completed
+   would block for ever (modelled as an error). *)
+Fixpoint set_nth {A} (n : nat) (v : A) (l : list A) : list A :=
+  match l, n with
+  | [], _ => []
+  | _ :: t, O => v :: t
+  | x :: t, S n' => x :: set_nth n' v t
+  end.
+
+Definition pool_step {A} (tasks : list A) (slots : list (option A)) (id : Z) : list (option A) :=
+  if (0 <=? id) && (id <? zlen tasks)
+  then set_nth (Z.to_nat id) (nth_error tasks (Z.to_nat id)) slots
+  else slots.
+
+Definition pool_run {A} (tasks : list A) (pi : list Z) : list (option A) :=
+  fold_left (pool_step tasks) pi (repeat None (length tasks)).
+
+Fixpoint gather {A} (slots : list (option A)) : res (list A) :=
+  match slots with
+  | [] => Ok []
+  | Some x :: t => bind (gather t) (fun r => Ok (x :: r))
+  | None :: _ => Err "TimeoutError"
+  end.
+
+(* the constructor with workers != 0 on an encapsulated syntax *)
+Definition construct_sched (c : cfg) (i : input) (perm pi : list Z) : res stored :=
+  bind (construct c i perm) (fun st =>
+  if native c then Ok st
+  else bind (gather (pool_run (s_frames st) pi)) (fun fr =>
+       Ok (Stored (s_cfg st) (s_meta st) (s_bytes st) fr))).
+
+(* completion orders used by the correspondence run: rotation by r, optionally reversed *)
+Definition rot_order (n r : Z) (rev : bool) : list Z :=
+  let l := map (fun k => (k + r) mod n) (zrange n) in if rev then List.rev l else l.
+
+(* ---- iter_segments ---------------------------------------------------- *)
+(* seg/utils.py iter_segments: for every segment number that has a frame, in
+   ascending order (= described order for BINARY / FRACTIONAL), the frames of
+   that segment in stored order, cut out of dataset.pixel_array, with the source
+   each frame refers to.  [g] is the frame getter of the object. *)
+Definition indexed {A} (l : list A) : list (Z * A) := combine (zrange (zlen l)) l.
+
+Definition iter_segs (g : Z -> list Z) (st : stored) : list (Z * list (Z * list Z)) :=
+  flat_map (fun s =>
+    match filter (fun im => fst (snd im) =? s) (indexed (s_meta st)) with
+    | [] => []
+    | fr => [(s, map (fun im => (snd (snd im), g (fst im))) fr)]
+    end) (segs (s_cfg st)).
+
+(* the column of (k-th described segment, source j) in the specification *)
+Definition expected_col (c : cfg) (i : input) (j k : Z) : list Z :=
+  map (fun p => expected_pixel c i j p k) (zrange (npix c)).
+
+(* ---- boundary functions of the extension ------------------------------ *)
+Definition eqb_res {A} (e : A -> A -> bool) (x y : res A) : bool :=
+  match x, y with
+  | Ok a, Ok b => e a b
+  | Err k1, Err k2 => String.eqb k1 k2
+  | _, _ => false
+  end.
+
+(* the specification of an ARBITRARY request list, evaluated next to the model
+   on all four object / cache states: stacked read = expected_req, combined read
+   (result or refusal) = spec_combined *)
+Definition req_spec_holds (c : cfg) (i : input) (perm req : list Z) (byframe am : bool) : bool :=
+  match construct c i perm with
+  | Err _ => false
+  | Ok st =>
+      match read_guard st req byframe am with
+      | Err _ => true
+      | Ok _ =>
+          forallb (fun lw : bool * bool =>
+            let g := frame_getter (fst lw) (snd lw) st in
+            eqb_res eqb3 (read_g g st req byframe am) (Ok (expected_req c i byframe req)) &&
+            eqb_res (eqb_list (eqb_list Z.eqb)) (read_combined g st req byframe am)
+                    (spec_combined c i byframe req))
+          [(false, false); (false, true); (true, false); (true, true)]
+      end
+  end.
+
+Definition run_hist2 (c : cfg) (i : input) (perm req : list Z) (byframe assert_missing : bool)
+  (steps : list Z) : val :=
+  match run_hist c i perm req byframe assert_missing steps with
+  | VL l => VL (l ++ [VB (req_spec_holds c i perm req byframe assert_missing)])
+  | e => e
+  end.
+
+Definition v_iter (x : list (Z * list (Z * list Z))) : val :=
+  VL (map (fun sg => VL [VZ (fst sg);
+                         VL (map (fun jf => VL [VZ (fst jf); vz_list (snd jf)]) (snd sg))]) x).
+
+(* further observation points of one stored object:
+   [NumberOfFrames; per-frame (segment, source); iter_segments of the eagerly read
+    file; pydicom's own pixel_array of the written file (all frames);
+    does the model accept => valid (well_formed inputs)] *)
+Definition run_observe (c : cfg) (i : input) (perm : list Z) : val :=
+  match construct c i perm with
+  | Err k => VErr k
+  | Ok st =>
+      VL [ VZ (zlen (s_meta st));
+           VL (map (fun m => vz_list [fst m; snd m]) (s_meta st));
+           (match ty c with LABELMAP => VNone | _ => v_iter (iter_segs (cached_frame st) st) end);
+           (if native c then vz_list2 (map (cached_frame st) (zrange (zlen (s_meta st)))) else VNone);
+           VB (negb (well_formed c i) || valid c i) ]
+  end.
+
+(* the constructor with a pool that completes the encode tasks in the order
+   rot_order n r rev: [NumberOfFrames; per-frame (segment, source); decoded stored frames] *)
+Definition run_sched (c : cfg) (i : input) (perm : list Z) (r : Z) (rev : bool) : val :=
+  match construct c i perm with
+  | Err k => VErr k
+  | Ok st0 =>
+      match construct_sched c i perm (rot_order (zlen (s_meta st0)) r rev) with
+      | Err k => VErr k
+      | Ok st =>
+          VL [ VZ (zlen (s_meta st));
+               VL (map (fun m => vz_list [fst m; snd m]) (s_meta st));
+               vz_list2 (map (stored_frame false st) (zrange (zlen (s_meta st)))) ]
+      end
+  end.
